@@ -335,7 +335,7 @@ func classifyMapRange(f *Func, rs *ast.RangeStmt, extraPure map[string]bool) (st
 	if len(collected) > 0 {
 		// every collected slice must be sorted after the loop before any other use
 		for _, o := range collected {
-			if !sortedAfter(f, rs, o) {
+			if !sortedAfter(f, rs, o) && !(SortedByCallers != nil && SortedByCallers(f, o)) {
 				return "order-sensitive", []string{"slice " + o.Name() + " is filled in map order and not sorted afterwards"}
 			}
 		}
@@ -384,6 +384,10 @@ func dependsOnLoopVars(info *types.Info, e ast.Expr, rs *ast.RangeStmt) bool {
 // after the range statement rs, in the same function, before the function's
 // end (the first use after the loop that is not a sort call is tolerated only
 // if it is a nil/len test).
+// SortedByCallers, when set (by Load), reports whether slice o, filled by f, is returned by f and sorted by
+// every caller of f before any other use: the collecting half of a collect-then-sort was moved into a helper.
+var SortedByCallers func(f *Func, o types.Object) bool
+
 func sortedAfter(f *Func, rs *ast.RangeStmt, o types.Object) bool {
 	info := f.Pkg.TypesInfo
 	found := false
